@@ -439,6 +439,8 @@ def _rvalue(s):
         parts = split_top(inner, ';')
         if len(parts) == 2 and re.match(r'^\d+$', parts[1].strip()):
             return ('repeat', parse_operand(parts[0]), int(parts[1]))
+        if len(parts) == 2 and re.match(r'^[A-Z_][A-Z0-9_]*$', parts[1].strip()):
+            return ('repeat', parse_operand(parts[0]), parts[1].strip())
         return ('agg', 'array', None, tuple(parse_operand(x) for x in split_top(inner)), s)
     if s.startswith('('):
         return ('agg', 'tuple', None, tuple(parse_operand(x) for x in split_top(s[1:-1])), s)
